@@ -115,6 +115,22 @@ Theorem C01_every_member_of_every_reachable_state_derives_the_commit_secret :
         (skipn k (fst (committer_chain sec derive flt r)), snd (committer_chain sec derive flt r)).
 Proof. exact every_receiver_derives_the_commit_secret. Qed.
 
+(* ... and a member ADDED by the commit: the path secret in its Welcome (position L - 1 of the committer's
+   list, C07_translated_welcome_bookkeeping_is_the_model) exists - that position is never filtered - and
+   leads to the same commit secret *)
+Theorem C01_every_joiner_derives_the_commit_secret :
+  forall (sec : Type) (derive : sec -> sec) t1 sndr id me flt L r,
+    shape_ok t1 -> small t1 -> 2 * sndr < tlen t1 -> me <> sndr -> get t1 (2 * me) <> None ->
+    1 <= L -> me / 2 ^ L = sndr / 2 ^ L -> (forall k, k < L -> me / 2 ^ k <> sndr / 2 ^ k) ->
+    let t1' := set t1 (2 * sndr) (Some (Leaf id)) in
+    let k := N.to_nat (L - 1) in
+    filtered t1' sndr = Ok flt -> (k < length flt)%nat ->
+    exists s,
+      secret_at sec (fst (committer_chain sec derive flt r)) k = Some s /\
+      receiver_chain sec derive (skipn k flt) s =
+        (skipn k (fst (committer_chain sec derive flt r)), snd (committer_chain sec derive flt r)).
+Proof. exact every_joiner_derives_the_commit_secret. Qed.
+
 Print Assumptions C01_receivers_reach_the_committers_commit_secret.
 Print Assumptions C01_receivers_agree_with_each_other.
 Print Assumptions C01_secrets_exactly_at_non_filtered_positions.
@@ -206,3 +222,4 @@ Proof. exact receiver_level_unfiltered. Qed.
 Print Assumptions C01_receiver_level_is_unfiltered_in_the_committers_list.
 Print Assumptions C01_translated_node_vector_operations_are_the_model.
 Print Assumptions C01_every_member_of_every_reachable_state_derives_the_commit_secret.
+Print Assumptions C01_every_joiner_derives_the_commit_secret.
